@@ -370,6 +370,14 @@ def do_action(api, env, context, act, orders, rec):
                 res[k] = fnum(getattr(b, k))
             except Exception as e:
                 res[k] = 'ERR:' + type(e).__name__
+    elif op == 'bar_mavg':
+        b = context._bar_dict[act['id']]
+        res = {}
+        for k in ('mavg', 'vwap'):
+            try:
+                res[k] = fnum(getattr(b, k)(act['n']))
+            except Exception as e:
+                res[k] = 'ERR:' + type(e).__name__
     elif op == 'position':
         p = api.get_position(act['id'], getattr(__import__('rqalpha.const', fromlist=['x']).POSITION_DIRECTION, act.get('dir', 'LONG')))
         res = dict(quantity=fnum(p.quantity), last_price=fnum(p.last_price), closable=fnum(p.closable))
@@ -505,6 +513,8 @@ def run_scenario(scn, light=False, extra_init=None, keep_bundle=None, world=None
                 api.subscribe_event(_EV[ehf[0]], handler)
             for reg in scn.get('sched', []):
                 install_sched(api, reg, rec)
+            for sub in scn.get('subs', []):
+                install_sub(api, sub, rec, context, box)
             context._bar_dict = None
             if scn.get('record_proc'):
                 rec.mark('proc', proc=proc_state(env))
@@ -568,6 +578,40 @@ def proc_state(env):
                 t1=bool(StockPosition.t_plus_enabled), env_is_current=Environment.get_instance() is env,
                 margin_switch_on=not hasattr(Account, '_margin'), future_apis=hasattr(__import__('rqalpha.api', fromlist=['x']), 'get_future_contracts'),
                 cached_entries=sum(f.cache_info().currsize for f in F.cached_functions))
+
+
+def install_sub(api, sub, rec, context0, box):
+    """sub: dict(ev=<EVENT name>, acts=[...], every=k): a handler registered with subscribe_event that performs the scripted observations / orders
+    (bracketed by api0 / api1 marks like every other scripted call) each k-th time the event is published"""
+    from rqalpha.core.events import EVENT as _EV
+    cnt = {'n': 0}
+    evn = sub['ev']
+
+    def handler(context, event):
+        cnt['n'] += 1
+        if cnt['n'] % sub.get('every', 1):
+            return
+        env = rec.env
+        bd = getattr(event, 'bar_dict', None)
+        saved = getattr(context, '_bar_dict', None)
+        if bd is not None:
+            context._bar_dict = bd
+        rec.mark('user0', ph='event:' + evn, day=-3, bar=cnt['n'])
+        for act in sub['acts']:
+            if act['op'] in ('bar', 'bar_mavg') and getattr(context, '_bar_dict', None) is None:
+                continue
+            rec.mark('api0', act=act, ph='event:' + evn, day=-3, bar=cnt['n'])
+            exc = None
+            ret, res = [], None
+            try:
+                ret, res = do_action(api, env, context, act, box['orders'], rec)
+            except Exception as e:
+                exc = dict(cls=type(e).__name__, msg=str(e)[:120])
+            rec.digest = zlib.crc32(repr((res, [(o.get('status'), o.get('qty'), o.get('filled')) for o in ret], exc and exc['cls'])).encode(), getattr(rec, 'digest', 0))
+            rec.mark('api1', act=act, ret=ret, res=res, exc=exc)
+        rec.mark('user1', ph='event:' + evn, day=-3, bar=cnt['n'])
+        context._bar_dict = saved
+    api.subscribe_event(_EV[evn], handler)
 
 
 def install_sched(api, reg, rec):
